@@ -10,7 +10,7 @@ From Coq Require Import Permutation.
 From Proofs Require Import WriterProofs WriterProofsAtom WriterProofsTokens WriterProofsStream WriterProofsClosures WriterProofsRefuted
                            WriterWfAtoms WriterWfFlatten WriterWfStream WriterWfDfs WriterWfEvents WriterWfTree WriterWfClosures WriterWfParens
                            WriterWfComplete WriterWfFlatten2 WriterWfDistinct WriterWfFinal WriterWfRun
-                           WriterWfFuelDfs WriterWfFuelFlat WriterWfFuelRun WriterWfFuelBfs WriterSeqFlatten WriterSeqTree WriterSeqAtoms WriterGenTies.
+                           WriterWfFuelDfs WriterWfFuelFlat WriterWfFuelRun WriterWfFuelBfs WriterSeqFlatten WriterSeqTree WriterSeqAtoms WriterGenTies WriterSeqBonds WriterSeqRings WriterSeqDisc.
 Import ListNotations.
 Open Scope Z_scope.
 
@@ -533,10 +533,12 @@ Print Assumptions C02_component_tree.
    reader tokens of the token list of ANY traversal returns the denotation (SmilesAst.denote, structural recursion over the tree)
    of the tree of the traversal.
    _partial - missing for read_write_graph: (i) that C03's tokenizer model (Model.Tokenize) turns the written TEXT into these
-   tokens (C02_writer_tokenizes is about Writer.v's own copy of the tokenizer); (ii) the evaluation of `denote` on this tree to
-   the atom list in written order and the bond list (tree bonds + ring closures, using C02_writer_closure_numbers for the
-   digit table of the parser); (iii) Reader.v (create_molecule) from the parsed record to the molecule; (iv) several
-   components (the dot) *)
+   tokens (C02_writer_tokenizes is about Writer.v's own copy of the tokenizer); (ii) the evaluation of `denote` on this tree:
+   the atom list in written order is C02_written_atoms_parsed, the tree bonds are C02_written_tree_bonds_parsed (extension
+   round 3), the ring-closure bonds are C02_written_ring_bonds_parsed / C02_written_ring_bonds_of_numbering (extension round 3:
+   the parser's digit table follows the writer's cycles because number_atoms never gives an opening cycle the number of an open one);
+   still missing in (ii): that `rings n` of the emitted text is the closure list of atom n with the numbers of number_atoms (emit);
+   (iii) Reader.v (create_molecule) from the parsed record to the molecule; (iv) several components (the dot) *)
 Theorem C02_read_write_graph_partial : forall g t smi aty atk rings bnd strong,
   (forall n, zmem (aty n) [0; 8] = true) -> (forall n, forallb (fun r : option token * Z => bond_ok (fst r)) (rings n) = true) ->
   (forall p c, bond_ok (bnd p c) = true) ->
@@ -560,3 +562,121 @@ Theorem C02_written_atoms_parsed : forall aty atk rings bnd,
     parse (ctoks aty atk rings bnd smi) strong = Ok rec -> p_atoms rec = map (fun n => strip_stereo (atk n)) (atoms_of smi).
 Proof. exact written_atoms_parsed. Qed.
 Print Assumptions C02_written_atoms_parsed.
+
+(* read_write_graph, tree-bond clause at the level of the reader's parser (extension round 3; by structural induction over the
+   tree of the traversal on SmilesAst.den, then C03's read_spell_denote): for the token list of ANY traversal, whenever Parser.parse
+   accepts its reader tokens, every tree edge parent - child the writer wrote (TBond p c) is a bond of the parsed record between
+   the positions of c and p in the WRITTEN ATOM ORDER, with the value of the written bond token (aromatic / single by the two
+   atom types when nothing or a direction mark is written; no bond for the dot): tree_bond / bval *)
+Theorem C02_denote_tree_bonds : forall aty atk rings bnd,
+  (forall n, zmem (aty n) [0; 8] = true) -> (forall n, forallb (fun r : option token * Z => bond_ok (fst r)) (rings n) = true) ->
+  (forall p c, bond_ok (bnd p c) = true) ->
+  forall it strong rec, denote strong (erase aty atk rings bnd it) = Ok rec ->
+  forall p c, In (p, c) (ipairs it) -> edge_ok aty bnd (p_bonds rec) 0 (ipre it) p c.
+Proof. exact denote_tree_bonds. Qed.
+Print Assumptions C02_denote_tree_bonds.
+
+Theorem C02_written_tree_bonds_parsed : forall g t smi aty atk rings bnd strong rec,
+  (forall n, zmem (aty n) [0; 8] = true) -> (forall n, forallb (fun r : option token * Z => bond_ok (fst r)) (rings n) = true) ->
+  (forall p c, bond_ok (bnd p c) = true) ->
+  flatten g t = Ok smi -> parse (ctoks aty atk rings bnd smi) strong = Ok rec ->
+  forall p c, In (p, c) (pairs_of smi) ->
+    exists i j, nth_error (atoms_of smi) i = Some p /\ nth_error (atoms_of smi) j = Some c /\
+      incl (tree_bond (bnd p c) (Z.of_nat j) (Z.of_nat i) (aty c) (aty p)) (p_bonds rec).
+Proof. exact written_tree_bonds_parsed. Qed.
+Print Assumptions C02_written_tree_bonds_parsed.
+
+(* the written atoms are duplicate-free (C02_flatten_nodup), so these are THE positions of parent and child *)
+Theorem C02_written_tree_bonds_parsed_at : forall g w tb o all st t smi aty atk rings bnd strong rec,
+  (forall n, zmem (aty n) [0; 8] = true) -> (forall n, forallb (fun r : option token * Z => bond_ok (fst r)) (rings n) = true) ->
+  (forall p c, bond_ok (bnd p c) = true) ->
+  traverse g w tb o all st = Ok t -> flatten g t = Ok smi -> parse (ctoks aty atk rings bnd smi) strong = Ok rec ->
+  forall p c i j, In (p, c) (pairs_of smi) -> nth_error (atoms_of smi) i = Some p -> nth_error (atoms_of smi) j = Some c ->
+    incl (tree_bond (bnd p c) (Z.of_nat j) (Z.of_nat i) (aty c) (aty p)) (p_bonds rec).
+Proof. exact written_tree_bonds_parsed_at. Qed.
+Print Assumptions C02_written_tree_bonds_parsed_at.
+
+(* non-vacuity: C(=O)(N)c as a tree *)
+Theorem C02_tree_bonds_example :
+  let aty := fun n => if n =? 4 then 8 else 0 in
+  let atk := fun n : Z => simple_atom (String.String "C"%char String.EmptyString) in
+  let rings := fun _ : Z => @nil (option token * Z) in
+  let bnd := fun p c : Z => if c =? 2 then Some (1, PInt 2) else None in
+  let it := INode 1 [INode 2 []; INode 3 []; INode 4 []] in
+  ipairs it = [(1, 2); (1, 3); (1, 4)] /\ ipre it = [1; 2; 3; 4] /\
+  exists rec, denote true (erase aty atk rings bnd it) = Ok rec /\
+              p_bonds rec = [(1, 0, PInt 2); (2, 0, PInt 1); (3, 0, PInt 1)].
+Proof. exact tree_bonds_example. Qed.
+Print Assumptions C02_tree_bonds_example.
+
+(* read_write_graph, ring-closure clause at the level of the reader's parser (extension round 3).
+   cyc n: the cycles (identifiers) written at atom n in written order; num c: the number written for cycle c; rb n c: the bond token
+   in front of it.  cl_atoms replays the closures by IDENTIFIER (first occurrence opens, second closes): (c, a, p) = cycle c opened at
+   position a, closed at position p of the written atom order.  disc_atoms: the number of an opening cycle is not the number of a
+   cycle open at that moment.  Under it, for ANY written token list the parser accepts: every cycle listed at an atom is closed,
+   every closing joins two atoms that both list the cycle, and the bond (p, a, value) is in the parsed record - the parser's table,
+   keyed by NUMBER, follows the identifiers (linear simulation Cyc over the reader tokens) *)
+Theorem C02_written_ring_bonds_parsed : forall aty atk rings bnd,
+  (forall n, zmem (aty n) [0; 8] = true) -> (forall p c, bond_ok (bnd p c) = true) ->
+  forall cyc num rb, (forall n, rings n = map (fun c => (rb n c, num c)) (cyc n)) -> (forall n c, bond_ok (rb n c) = true) ->
+  forall smi strong rec,
+    parse (ctoks aty atk rings bnd smi) strong = Ok rec -> disc_atoms cyc num 0 (atoms_of smi) [] ->
+    (forall x c, In x (atoms_of smi) -> In c (cyc x) -> exists a p, In (c, a, p) (cl_atoms cyc 0 (atoms_of smi) [])) /\
+    (forall c a p, In (c, a, p) (cl_atoms cyc 0 (atoms_of smi) []) ->
+       (exists x y, nth_error (atoms_of smi) (Z.to_nat a) = Some x /\ nth_error (atoms_of smi) (Z.to_nat p) = Some y /\
+                    In c (cyc x) /\ In c (cyc y) /\ 0 <= a <= p) /\
+       exists v, In (p, a, v) (p_bonds rec)).
+Proof. exact written_ring_bonds_parsed. Qed.
+Print Assumptions C02_written_ring_bonds_parsed.
+
+(* the writer's numbering obeys the discipline: at every atom, the cycles open before it and the cycles opened at it carry pairwise
+   different FINAL numbers (from C02_closure_numbers_atom and: a number once given is never changed) *)
+Theorem C02_numbers_disciplined : forall (good : Z -> Prop) tokens ro todo casted heap open seen casted' heap',
+  Inv good casted heap open seen -> NoDup open ->
+  wf_events open seen (map (fun a => map snd (atom_closures tokens ro (fst a))) todo) ->
+  number_atoms tokens ro todo casted heap = Ok (casted', heap') ->
+  Disc_ev (cnum casted') open seen (map (fun a => map snd (atom_closures tokens ro (fst a))) todo).
+Proof. exact numbers_disciplined. Qed.
+Print Assumptions C02_numbers_disciplined.
+
+(* ... which gives disc_atoms for ANY order in which the closures of an atom are written (the writer sorts them by number);
+   atoms without closures are skipped (Align) *)
+Theorem C02_disc_atoms_of_events : forall cyc num ats evs, Align cyc ats evs -> forall k op open seen,
+  wf_events open seen evs -> Disc_ev num open seen evs ->
+  NoDup (op_ids op) -> (forall c, In c (op_ids op) <-> In c open) -> (forall c, In c open -> In c seen) ->
+  disc_atoms cyc num k ats op.
+Proof. exact disc_atoms_of_events. Qed.
+Print Assumptions C02_disc_atoms_of_events.
+
+(* together, for any component (nothing open at its start): the numbers of number_atoms and the parser's digit table *)
+Theorem C02_written_ring_bonds_of_numbering :
+  forall (good : Z -> Prop) tokens ro todo casted heap seen casted' heap' aty atk rings bnd cyc rb smi strong rec,
+  let evs := map (fun a : Z * Z => map snd (atom_closures tokens ro (fst a))) todo in
+  let num := cnum casted' in
+  Inv good casted heap [] seen -> wf_events [] seen evs -> number_atoms tokens ro todo casted heap = Ok (casted', heap') ->
+  Align cyc (atoms_of smi) evs ->
+  (forall n, zmem (aty n) [0; 8] = true) -> (forall p c, bond_ok (bnd p c) = true) ->
+  (forall n, rings n = map (fun c => (rb n c, num c)) (cyc n)) -> (forall n c, bond_ok (rb n c) = true) ->
+  parse (ctoks aty atk rings bnd smi) strong = Ok rec ->
+  (forall x c, In x (atoms_of smi) -> In c (cyc x) -> exists a p, In (c, a, p) (cl_atoms cyc 0 (atoms_of smi) [])) /\
+  (forall c a p, In (c, a, p) (cl_atoms cyc 0 (atoms_of smi) []) ->
+     (exists x y, nth_error (atoms_of smi) (Z.to_nat a) = Some x /\ nth_error (atoms_of smi) (Z.to_nat p) = Some y /\
+                  In c (cyc x) /\ In c (cyc y) /\ 0 <= a <= p) /\
+     exists v, In (p, a, v) (p_bonds rec)).
+Proof. exact written_ring_bonds_of_numbering. Qed.
+Print Assumptions C02_written_ring_bonds_of_numbering.
+
+(* non-vacuity: C1CC1, cycle 7 numbered 1 *)
+Theorem C02_ring_bonds_example :
+  let aty := fun _ : Z => 0 in
+  let atk := fun n : Z => simple_atom (String.String "C"%char String.EmptyString) in
+  let cyc := fun n : Z => if (n =? 10) || (n =? 30) then [7] else [] in
+  let num := fun _ : Z => 1 in
+  let rb := fun _ _ : Z => @None token in
+  let rings := fun n => map (fun c => (rb n c, num c)) (cyc n) in
+  let bnd := fun _ _ : Z => @None token in
+  let smi := [TAtom 10; TBond 10 20; TAtom 20; TBond 20 30; TAtom 30] in
+  disc_atoms cyc num 0 (atoms_of smi) [] /\ cl_atoms cyc 0 (atoms_of smi) [] = [(7, 0, 2)] /\
+  exists rec, parse (ctoks aty atk rings bnd smi) true = Ok rec /\ p_bonds rec = [(1, 0, PInt 1); (2, 1, PInt 1); (2, 0, PInt 1)].
+Proof. exact ring_bonds_example. Qed.
+Print Assumptions C02_ring_bonds_example.
